@@ -316,3 +316,54 @@ func VP_C05_kinds() {
 	}
 	vpReach("C05/kinds/done")
 }
+
+func init() {
+	vpHarnesses["VP_C05_pool"] = VP_C05_pool
+}
+
+// C05/pool: CONCRETE POOL (not symbolic) of number pairs outside the symbolic
+// bounds: 34-digit coefficients differing in the last digit, values that
+// collapse in binary floating point, exponents far beyond the float64 range,
+// different spellings of one value. Each pair is written as literals, compared
+// by all eight operators through the parser and the runner, in both orders.
+func VP_C05_pool() {
+	pool := []struct {
+		a, b string
+		ord  int
+	}{
+		{"1234567890123456789012345678901234", "1234567890123456789012345678901235", -1},
+		{"1", "1.000000000000000000000000000000001", -1},
+		{"0.3333333333333333", "0.3333333333333333333333333333333333", -1},
+		{"1e-400", "2e-400", -1}, {"1e400", "1e500", -1}, {"1e-400", "0", 1}, {"9e-6000", "1e-5999", -1},
+		{"9007199254740993", "9007199254740992", 1}, {"9007199254740993", "9007199254740993.0", 0},
+		{"0.1", "0.1000000000000000055511151231257827", -1}, {"1e23", "99999999999999991611392", 1},
+		{"1", "1.0", 0}, {"1", "1e0", 0}, {"1", "10e-1", 0}, {"100", "1e2", 0}, {"0.5", "5e-1", 0}, {"1e400", "10e399", 0}, {"0", "0.000", 0}, {"0e5", "0", 0},
+		{"18446744073709551616", "18446744073709551615", 1}, {"9223372036854775808", "9223372036854775807", 1},
+		{"123456789012345678901234567890.1234", "123456789012345678901234567890.1235", -1},
+		{"4.9e-324", "5e-324", -1}, {"1.7976931348623157e308", "1.7976931348623158e308", -1},
+	}
+	p := pool[vpChoice("pair", len(pool))]
+	a, b, ord := p.a, p.b, p.ord
+	if vpBool("swap") {
+		a, b, ord = b, a, -ord
+	}
+	neg := vpBool("neg")
+	if neg {
+		a, b, ord = "-"+a, "-"+b, -ord
+	}
+	ops := []string{"<", ">", "<=", ">=", "==", "!=", "===", "!=="}
+	want := []bool{ord < 0, ord > 0, ord <= 0, ord >= 0, ord == 0, ord != 0, ord == 0, ord != 0}
+	labels := []string{"less", "greater", "less-or-equal", "greater-or-equal", "equal", "not-equal", "strict-equal", "strict-not-equal"}
+	for i, op := range ops {
+		code, err := ParseSourceCode([]byte(a + " " + op + " " + b))
+		if err != nil {
+			vpAssert("C05/pool/parses", false)
+			return
+		}
+		v, rerr := NewRunner().Resolve(context.Background(), code.Expression)
+		got, ok := v.(bool)
+		vpAssert("C05/pool/"+labels[i], rerr == nil && ok && got == want[i])
+	}
+	vpObserve("pair", a, b, ord)
+	vpReach("C05/pool/done")
+}
